@@ -138,6 +138,19 @@ fn main() {
     println(q);
     println(q.keys());
     println(q.to_json());
+    let r = new { ? };
+    r.set("id", 1);
+    r.set("_id", 2);
+    r.set("__id", 3);
+    r.set("id_", 4);
+    r.set(" id", 5);
+    r.set("id ", 6);
+    println(r);
+    println(r.keys());
+    println(r.to_json());
+    let s = new { _id: 1, id: 2, __id: 3, id_: 4 };
+    println(s);
+    println(s.to_json());
 }
 `}},
 	{Name: "three-modules-overlapping-names", Mods: map[string]string{
